@@ -9,6 +9,8 @@ import (
 	"sort"
 
 	"github.com/foxglove/mcap/go/mcap"
+	"github.com/klauspost/compress/zstd"
+	"github.com/pierrec/lz4/v4"
 
 	"verifharness/refmcap"
 	"verifharness/wl"
@@ -52,6 +54,21 @@ func XorDecompress(b []byte) []byte {
 // Decompressors returns the reader-side half of the custom pair.
 func Decompressors() map[mcap.CompressionFormat]mcap.ResettableReader {
 	return map[mcap.CompressionFormat]mcap.ResettableReader{"xor": &xorReader{}}
+}
+
+type lz4Resettable struct{ *lz4.Reader }
+
+func (l lz4Resettable) Reset(r io.Reader) error { l.Reader.Reset(r); return nil }
+
+// CustomDecompressors returns caller-supplied decoders for every format: the xor pair, a zstd decoder that ignores the
+// frame checksum, and an lz4 reader behind the ResettableReader interface.
+func CustomDecompressors() map[mcap.CompressionFormat]mcap.ResettableReader {
+	m := Decompressors()
+	if zr, err := zstd.NewReader(nil, zstd.IgnoreChecksum(true)); err == nil {
+		m[mcap.CompressionZSTD] = zr
+	}
+	m[mcap.CompressionLZ4] = lz4Resettable{lz4.NewReader(nil)}
+	return m
 }
 
 // Options converts a workload configuration to writer options.
